@@ -19,4 +19,6 @@ pub mod props {
     pub mod c11;
     pub mod c12;
     pub mod c13;
+    pub mod c15;
+    pub mod c16;
 }
